@@ -406,4 +406,130 @@ theorem findKey_none {κ} [DecidableEq κ] (l : List κ) (k : κ) (h : findKey l
         · exact ih hf hm'
       | some j => rw [hf] at h; simp at h
 
+/-! ## the frame LUT join -/
+
+theorem cellFrame_key (arr : Mask) (segs : List Nat) (t : SegType) (mfv : Nat) (omt : Bool) (c : Option Nat × Nat)
+    (f : Frame) (h : cellFrame arr segs t mfv omt c = some f) : (f.seg, f.plane) = c := by
+  unfold cellFrame at h
+  split at h
+  · split at h
+    · simp at h; subst h; rfl
+    · simp at h
+  · simp at h
+
+theorem cellFrame_of_cell (arr : Mask) (segs : List Nat) (t : SegType) (mfv : Nat) (omt : Bool) (c : Option Nat × Nat)
+    (px : List Nat) (h : cellE arr segs t mfv c.1 c.2 = .ok px) :
+    cellFrame arr segs t mfv omt c = if keep omt c.1 px then some ⟨c.1, c.2, px⟩ else none := by
+  unfold cellFrame; rw [h]
+
+theorem all_zero_eq_replicate (px : List Nat) (h : px.any (· != 0) = false) : px = List.replicate px.length 0 := by
+  rw [List.eq_replicate_iff]
+  refine ⟨rfl, ?_⟩
+  intro v hv
+  rw [List.any_eq_false] at h
+  have := h v hv
+  simpa using this
+
+/-- reading by key from the stored frames delivers the pixels of the cell, stored or skipped -/
+theorem readKey_spec (codec : Option Codec) (o : SegObj) (arr : Mask) (segs : List Nat) (t : SegType) (mfv : Nat)
+    (omt : Bool) (cs : List (Option Nat × Nat))
+    (hkeys : o.keys = (cs.filterMap (cellFrame arr segs t mfv omt)).map (fun f => (f.seg, f.plane)))
+    (hread : ∀ i (hi : i < (cs.filterMap (cellFrame arr segs t mfv omt)).length),
+      readFrame codec o i = .ok ((cs.filterMap (cellFrame arr segs t mfv omt))[i]).px)
+    (k : Option Nat × Nat) (px : List Nat) (hpx : cellE arr segs t mfv k.1 k.2 = .ok px)
+    (hlen : px.length = o.rows * o.cols)
+    (hmiss : k ∉ cs → px.any (· != 0) = false) :
+    readKey codec o k = .ok px := by
+  unfold readKey
+  cases hf : findKey o.keys k with
+  | some i =>
+    obtain ⟨hi, hik⟩ := findKey_some _ _ _ hf
+    have hi' : i < (cs.filterMap (cellFrame arr segs t mfv omt)).length := by
+      rw [hkeys] at hi; simpa using hi
+    simp only [hread i hi']
+    have hmem := List.getElem_mem hi'
+    obtain ⟨c, hc, hcf⟩ := List.mem_filterMap.mp hmem
+    have hck := cellFrame_key _ _ _ _ _ _ _ hcf
+    have : (cs.filterMap (cellFrame arr segs t mfv omt))[i].seg = k.1 ∧
+        (cs.filterMap (cellFrame arr segs t mfv omt))[i].plane = k.2 := by
+      have h2 : o.keys[i] = k := hik
+      simp only [hkeys, List.getElem_map] at h2
+      rw [← h2]; exact ⟨rfl, rfl⟩
+    have hck' : c = k := by
+      rw [← hck]; exact Prod.ext this.1 this.2
+    subst hck'
+    rw [cellFrame_of_cell _ _ _ _ _ _ px hpx] at hcf
+    split at hcf
+    · simp only [Option.some.injEq] at hcf; rw [← hcf]
+    · simp at hcf
+  | none =>
+    have hnot := findKey_none _ _ hf
+    show Except.ok (List.replicate (o.rows * o.cols) 0) = Except.ok px
+    congr 1
+    have hz : px.any (· != 0) = false := by
+      by_cases hk : k ∈ cs
+      · -- the cell was visited; had its frame been kept, its key would be in the LUT
+        cases hcf : cellFrame arr segs t mfv omt k with
+        | some f =>
+          exfalso
+          apply hnot
+          rw [hkeys]
+          have hfm : f ∈ cs.filterMap (cellFrame arr segs t mfv omt) := List.mem_filterMap.mpr ⟨k, hk, hcf⟩
+          have := cellFrame_key _ _ _ _ _ _ _ hcf
+          rw [← this]
+          exact List.mem_map.mpr ⟨f, hfm, rfl⟩
+        | none =>
+          rw [cellFrame_of_cell _ _ _ _ _ _ px hpx] at hcf
+          split at hcf
+          · simp at hcf
+          · rename_i hkeep
+            unfold keep at hkeep
+            cases h : px.any (· != 0)
+            · rfl
+            · simp [h] at hkeep
+      · exact hmiss hk
+    rw [← hlen]
+    exact (all_zero_eq_replicate px hz).symm
+
+/-! ## round half to even -/
+
+theorem floor_le_self (q : Rat) : ((q.floor : Int) : Rat) ≤ q := Rat.le_floor_iff.mp (Int.le_refl _)
+
+theorem rhe_cases (q : Rat) : roundHalfEven q = q.floor ∨ (roundHalfEven q = q.floor + 1 ∧ (q.floor : Rat) + 1 / 2 ≤ q) := by
+  unfold roundHalfEven
+  simp only []
+  split
+  · left; rfl
+  · rename_i h1
+    split
+    · right; refine ⟨rfl, ?_⟩; linarith
+    · rename_i h2
+      have : q - (q.floor : Rat) = 1 / 2 := by linarith
+      split
+      · left; rfl
+      · right; refine ⟨rfl, ?_⟩; linarith
+
+theorem rhe_nonneg (q : Rat) (h : 0 ≤ q) : 0 ≤ roundHalfEven q := by
+  have hf : (0 : Int) ≤ q.floor := Rat.le_floor_iff.mpr (by simpa using h)
+  rcases rhe_cases q with h1 | ⟨h1, _⟩ <;> omega
+
+theorem rhe_le (q : Rat) (M : Int) (h : q ≤ (M : Rat)) : roundHalfEven q ≤ M := by
+  have hfq := floor_le_self q
+  have hf : q.floor ≤ M := by
+    have : ((q.floor : Int) : Rat) ≤ (M : Rat) := le_trans hfq h
+    exact_mod_cast this
+  rcases rhe_cases q with h1 | ⟨h1, h2⟩
+  · omega
+  · rw [h1]
+    by_contra hc
+    have : M ≤ q.floor := by omega
+    have : (M : Rat) ≤ (q.floor : Rat) := by exact_mod_cast this
+    linarith
+
+theorem rhe_zero : roundHalfEven 0 = 0 := by
+  have h : (0 : Rat).floor = 0 := by simpa using Rat.floor_intCast 0
+  unfold roundHalfEven
+  simp [h]
+
+
 end HdVerif.SegEncodeLemmas
